@@ -9,7 +9,8 @@
  * exists in that layer), SUFFIX_ARG (as passed by the caller, may be NULL), SUFFIX_DOT
  * (".conf" or ""), ENTRY (0 readDirsHistory, 1 readDirsHistoryWithCallback, 2 readDirs,
  * 3 readDirsWithCallback, 4 readConfig, 5 readConfigWithCallback), FAULTS (0/1).
- * Symbolic: kind of each existing main file {regular, empty, link to /dev/null}, verdict per file.
+ * Symbolic: the value stored in every file; with FAULTS the kind of failure {callback rejects, malformed,
+ * foreign owner} of the one file FAILFILE (concrete index).
  */
 #include "layout.h"
 #define MAXFILES (LAYERS * (NF + 1))
@@ -111,8 +112,9 @@ void harness(void) {
   }
   const bool with_cb = (ENTRY == 1 || ENTRY == 3 || ENTRY == 5);
   for (int i = 0; i < nfi; i++) {
-    unsigned v = FAULTS ? IN8(3 * LAYERS + i) % 4 : V_OK;
-    if (!with_cb && v == V_REJECT) v = V_OK;
+    /* which file fails is concrete per instance (FAILFILE, -1 = none); and how it fails (FAILKIND: 1 callback rejects, 2 malformed, 3 foreign owner) are concrete per instance */
+    unsigned v = (FAULTS && i == FAILFILE) ? FAILKIND : V_OK;
+    if (!with_cb && v == V_REJECT) v = V_PARSE;
     FI[i].verdict = (unsigned char)v;
     char content[12]; size_t cl = 0;
     /* symbolic content: one group-less entry, key in {k,j}, value one symbolic letter */
